@@ -29,12 +29,6 @@ import (
 func Retry(ctx context.Context,
 	s Strategy,
 	bizFunc func() error) error {
-	var ticker *time.Ticker
-	defer func() {
-		if ticker != nil {
-			ticker.Stop()
-		}
-	}()
 	for {
 		err := bizFunc()
 		// 直接退出
@@ -45,16 +39,15 @@ func Retry(ctx context.Context,
 		if !ok {
 			return errs.NewErrRetryExhausted(err)
 		}
-		if ticker == nil {
-			ticker = time.NewTicker(duration)
-		} else {
-			ticker.Reset(duration)
-		}
+		// 每次等待都用新的 timer：复用 ticker 时，bizFunc 执行期间缓冲下来的
+		// 旧 tick 会让下一次等待立刻结束
+		timer := time.NewTimer(duration)
 		select {
 		case <-ctx.Done():
 			// 超时或者被取消了，直接返回
+			timer.Stop()
 			return ctx.Err()
-		case <-ticker.C:
+		case <-timer.C:
 		}
 	}
 }
